@@ -1,13 +1,14 @@
 SPECIFICATION Spec
 CONSTANTS
-  Devs <- DevBoth
+  Devs <- DevAll
   Ops <- AllOps
   ByteStrings <- BytesQuick
   NumSeqs <- NumsQuick
   NewObjs <- MCNewObjs
+  InheritBound <- MCInheritBound
   MaxDepth = 2
   Starts <- StartsTiny
-  Allowed = {}
+  Allowed = {"resources.shadow.deep", "fresh.aboveMax", "maxid.setObject", "counts.indirect", "delete.bookmark"}
   Emit = TRUE
   EmitMod = 50
   EmitModV = 1
